@@ -125,7 +125,9 @@ NumpyWs == IF Ev.wf = "one" THEN Ones(Len(Ev.rows))
 
 Expect ==
   LET op == Ev.op IN
-  CASE op \in {"New", "NewDefault", "NewShared", "NewConv"} -> X(Ev.s, FALSE, Zero(Ev.d), Ev.d, TRUE, TRUE, "det")
+  CASE op \in {"New", "NewDefault", "NewShared", "NewConv"} ->
+         (* (ed: a collection put together with .ed(entries, children): it holds entries from the start) *)
+         X(Ev.s, FALSE, IF "ed" \in DOMAIN Ev.d THEN [Zero(Ev.d) EXCEPT !.e = Ev.d.ed] ELSE Zero(Ev.d), Ev.d, TRUE, TRUE, "det")
     [] op = "MH" ->
          (* make_histograms: the histogram of feature Ev.cols is the fold of Fill over the rows, for the tree that
             the RETURNED bin specifications describe *)
@@ -255,6 +257,7 @@ Clauses(E) ==
     noshare  |-> T.sharing \/ Ev.sh = <<>>,
     wf       |-> (* bookkeeping invariants of the target and of every other slot that changed *)
                  /\ \/ ~Ok \/ ~shapeOK \/ E.exc \/ E.how \in {"pure", "drop", "free"} \/ overBudget
+                    \/ (Ev.op = "NewShared" /\ "ed" \in DOMAIN Ev.d)     \* (.ed(entries, parts) states the entries itself)
                     \/ WF(ObsC(tgt), E.d)
                  /\ \A s \in changedOthers : (pool[s].live /\ ShapeOK(ObsC(s), pool[s].d)) => WF(ObsC(s), pool[s].d),
     flags    |-> \/ ~Ok
@@ -310,6 +313,7 @@ DevFor(E, cl) ==
     THEN "Dev_LeadingCountScalarWeight"
   ELSE IF op \in {"Add", "Combine", "IAdd"} /\ cl \in {"state", "sem", "wf"} /\ Ok /\ Ev.boolstr
           /\ (~pool[Ev.a].mut \/ ~pool[Ev.b].mut)
+          /\ T.catmode = "bool"      \* (the history really fed booleans: with the STRINGS "True" / "False" nothing may change type)
     (* Categorize takes booleans as categories, JSON object keys are strings: a reloaded operand holds "True" where
        the live one holds True, the merge keeps both (Ev.boolstr: the harness saw such a pair in the result) *)
     THEN "Dev_ReloadedBoolCategoriesAreStrings"
